@@ -982,12 +982,17 @@ static std::string doStep(const vj::Val& st) {
       c.ctx->trusted(st.boolean("on", false));
       o += ",\"oc\":\"ok\"";
     }
+    /* the host's permission calls, through the C API (bloc_capi.h) */
     else if (op == "unban") {
-      PluginManager::instance().unbanPlugin(st.str("m"));
+      bloc_unban_plugin(st.str("m").c_str());
       o += ",\"oc\":\"ok\"";
     }
     else if (op == "clearperm") {
-      PluginManager::instance().clearPermissions();
+      bloc_clear_plugin_permissions();
+      o += ",\"oc\":\"ok\"";
+    }
+    else if (op == "deinit") {
+      bloc_deinit_plugins();
       o += ",\"oc\":\"ok\"";
     }
     else if (op == "dump") {
